@@ -76,8 +76,8 @@ def long_file(rng):
         toks = [kw] + {'DFIX': ['1.54', '0.02'], 'MPLA': [str(min(n, 9))], 'ISOR': ['0.1', '0.2'], 'OMIT': []}.get(kw, []) + ats
         if kw in ('BIND', 'FREE', 'HTAB'):
             toks = [kw] + ats[:2]
-        if kw == 'OMIT':
-            toks = ['OMIT', '-3', '55.5']
+        if kw == 'OMIT' and rng.random() < 0.4:
+            toks = ['OMIT', '-3', '55.5']       # else: OMIT with a (long) list of atom names, an instruction the library keeps as text
         body.append(toks)
     fv = ['%.5f' % (1.0 if i == 0 else rng.uniform(0.05, 0.95)) for i in range(nfv)]
     if rng.random() < 0.5:
@@ -106,6 +106,15 @@ def check_written(ctx, shx, out, case):
     phys = out.split('\n')
     if phys and phys[-1] == '':
         phys = phys[:-1]
+    # indented lines that an item holds itself as a comment line (e.g. the ' The following is from DSR:' line of insert_frag_fend_entry)
+    own_comments = set()
+    for i, item in enumerate(shx._reslist):
+        if i in shx.delete_on_write:
+            continue
+        parts = str(item).split('\n')
+        for j, part in enumerate(parts):
+            if part.startswith(' ') and part.strip() and (j == 0 or '=' not in parts[j - 1].split('!')[0]) and isinstance(item, str) and len(parts) > 1:
+                own_comments.add(part)
     prev_cont = False
     for n, l in enumerate(phys):
         if len(l) > 80:
@@ -115,7 +124,7 @@ def check_written(ctx, shx, out, case):
         if prev_cont and not l.startswith(' '):
             common.add_violation(ctx, 'the line after a continuation mark does not begin with a blank', dict(case, line=l, line_number=n + 1), 'blank first', l[:10])
             return
-        if not prev_cont and l.startswith(' ') and l.strip():
+        if not prev_cont and l.startswith(' ') and l.strip() and l not in own_comments:
             common.add_violation(ctx, 'a written line is neither instruction, comment nor continuation (indented text without preceding =)',
                                  dict(case, line=l, line_number=n + 1), 'no such line', l[:40])
             return
@@ -224,11 +233,17 @@ def run(ctx):
             # long text put into the file through the editing API has to be wrapped like everything else
             names = [a.name for a in shx.atoms.all_atoms if not a.qpeak]
             with contextlib.redirect_stdout(io.StringIO()):
-                if rng.random() < 0.5 and names:
+                r_ = rng.random()
+                if r_ < 0.25:
+                    # a block of several lines right behind the first FVAR line (in front of a second FVAR line, if the file has one)
+                    shx.insert_frag_fend_entry([['O1', 3, 0.1, 0.2, 0.3], ['C1', 1, 0.25, 0.35, 0.45]], [1, 1, 1, 90, 90, 90])
+                elif r_ < 0.4:
+                    shx.add_line(shx.fvars.position, 'REM remark behind the free variables')
+                elif r_ < 0.7 and names:
                     shx.insert_anis(' '.join(rng.choice(names) for _ in range(rng.randint(25, 60))))
                 else:
                     shx.add_line(shx.unit.position, 'SIMU 0.04 0.08 1.7 ' + ' '.join(rng.choice(names or ['C1']) for _ in range(rng.randint(25, 60))))
-            case = dict(case, edited='a long instruction was inserted through add_line / insert_anis')
+            case = dict(case, edited='text was inserted through add_line / insert_anis / insert_frag_fend_entry')
         out = im.write_text(shx)
         ev += 1
         check_written(ctx, shx, out, case)
